@@ -27,6 +27,7 @@ func (e *executionContext) AppendLog(ctx context.Context, log *ledger.Log) (*led
 // whatever the interleaving of concurrent writers.
 func (e *executionContext) appendLog(ctx context.Context, build func() *ledger.Log) (*ledger.ChainedLog, chan struct{}, error) {
 	if !e.parameters.DryRun {
+		verifhook.BeforeLock(ctx, &e.commander.appendMu, "append.lockwait")
 		e.commander.appendMu.Lock()
 		defer e.commander.appendMu.Unlock()
 	}
